@@ -341,7 +341,7 @@ Print Assumptions C09_swap_post.
 (* ---- mergeRanks (absolute / relative) with the default merge_fn (sum), leaf default 0 ----
    [sq l l']: the point/value lists l and l' are equal up to permutation, joining two entries of
    the same point by + and dropping zero entries ("colliding points reduced with the merge
-   function").  It implies equal point sums, which is the quantity the oracle compares: *)
+   function"); the merged trees are sorted and of uniform depth.  It implies equal point sums, which is the quantity the oracle compares: *)
 Theorem C09_sq_sums : forall out img src, sq out (map (on_pt img) src) ->
   forall q, fsum out q = sums_to img src q.
 Proof. exact sq_sums. Qed.
@@ -351,8 +351,9 @@ Print Assumptions C09_sq_sums.
    sequence of keys: the groups hold exactly the items (each under its key), none is empty *)
 Theorem C09_merge_groups : forall items,
   Permutation (ungroups (group_items items)) items
-  /\ Forall (fun g : coord * list ct => snd g <> []) (group_items items).
-Proof. intros. split; [apply group_items_perm|apply group_nonempty]. Qed.
+  /\ Forall (fun g : coord * list ct => snd g <> []) (group_items items)
+  /\ pw ccmp (map fst (group_items items)).
+Proof. intros. split; [apply group_items_perm|split; [apply group_nonempty|apply group_items_pw]]. Qed.
 Print Assumptions C09_merge_groups.
 
 (* _mergeToFibertree with sum on any non-empty list of sorted payloads of uniform depth m (any
@@ -361,7 +362,8 @@ Print Assumptions C09_merge_groups.
    elements' coordinates, an operand that does not offer a coordinate contributes a default
    without content. *)
 Theorem C09_merge_to_fibertree : forall fuel m ps, (m < fuel)%nat -> ps <> [] -> unif m ps ->
-  exists t, merge_tf fuel 0 false ps = Some t /\ sq (ccontent 0 t) (flat_map (ccontent 0) ps).
+  exists t, merge_tf fuel 0 false ps = Some t /\ sq (ccontent 0 t) (flat_map (ccontent 0) ps)
+            /\ cdepth_ok m t = true /\ csorted t = true.
 Proof. exact merge_tf_content. Qed.
 Print Assumptions C09_merge_to_fibertree.
 
@@ -372,14 +374,15 @@ Theorem C09_merge_level : forall style fuel shapes es m, (m < fuel)%nat -> all_f
                            (sub (snd cp))) es ->
   exists r, merge_helper 1 style false fuel shapes 0 es = Some r
     /\ sq (ccontent 0 (CN r))
-          (ccontent 0 (CN (merge_items style (prodZ (firstn 1 (tl shapes))) 0 es))).
+          (ccontent 0 (CN (merge_items style (prodZ (firstn 1 (tl shapes))) 0 es)))
+    /\ csorted (CN r) = true /\ cdepth_ok (S m) (CN r) = true.
 Proof. exact merge1_content. Qed.
 Print Assumptions C09_merge_level.
 (* Still missing for "the model meets the oracle on OMerge": levels > 1 (the recursion of
-   _mergeRanksHelper through already merged lower fibers), the Below descent up to [sq], that
-   the merged fiber is sorted and of uniform depth (ins_group keeps the keys ascending,
-   union_coords is ascending - the latter is proved inside C09_merge_to_fibertree), and the step
-   from equal point sums to content_ok (the result's points are distinct and carry no zero). *)
+   _mergeRanksHelper through already merged lower fibers - the merged fibers are now known to be
+   sorted and of uniform depth, which is what the next level needs), the Below descent up to
+   [sq], the absolute / relative point maps on the items, and the step from equal point sums to
+   content_ok (the result's points are distinct and carry no zero). *)
 
 (* the operations for which "the model satisfies the oracle" is proved for all well-formed
    cases: every operation, at every depth, number of levels and style, except mergeRanks
